@@ -805,6 +805,12 @@ class Sys:
                 # the attached stream is a scripted queue fed by a client task (ops feed / end_stream)
                 us = st.meta['ustream']
                 q = mget(st, us)
+                if q.get('repeat'):
+                    # a stream that is ready on every poll (stream::repeat, a busy socket): item r<k> at the k-th poll
+                    k = q['count'] + 1
+                    mset(st, us, count=k)
+                    st.event('stream_yield', f'r{k}')
+                    return [(st, ready(some(Msg.new(f'r{k}'))))]
                 if q['items']:
                     it = q['items'][0]
                     mset(st, us, items=tuple(q['items'][1:]))
@@ -872,6 +878,7 @@ class Sys:
                 ex['pend'] = pend + 1
                 _store(e, s2, ref, VAgg(name='leaf', fields=fut.fields, extra=ex))
                 s2.event('user_pending', kind, n, fut.extra.get('actor'), _describe(msg))
+                s2.meta['self_wake'] = True      # user code suspended on something of its own: it wakes the task itself
                 outs.append((s2, PENDING))
             mid = str((msg.extra or {}).get('id', '')) if isinstance(msg, VAgg) else ''
             if mid.startswith('hang'):
@@ -908,6 +915,7 @@ class Sys:
                 ex['pend'] = pend + 1
                 _store(e, st, ref, VAgg(name='leaf', fields=fut.fields, extra=ex))
                 st.event('user_pending', kind, n, fut.extra.get('actor'), '')
+                st.meta['self_wake'] = True
                 return [(st, PENDING)]
             self.run_started_script(st, fut)
             r = self.user_script.get(('started', n), 'ok')
@@ -922,6 +930,7 @@ class Sys:
                 ex['pend'] = pend + 1
                 _store(e, st, ref, VAgg(name='leaf', fields=fut.fields, extra=ex))
                 st.event('userfut_pending', n, mget(st, self.clock(st))['now'])
+                st.meta['self_wake'] = True
                 return [(st, PENDING)]
             st.event('userfut_run', n, mget(st, self.clock(st))['now'])
             return [(st, ready(UNIT))]
@@ -933,6 +942,7 @@ class Sys:
                 ex['pend'] = pend + 1
                 _store(e, st, ref, VAgg(name='leaf', fields=fut.fields, extra=ex))
                 st.event('user_pending', kind, n, fut.extra.get('actor'), '')
+                st.meta['self_wake'] = True
                 return [(st, PENDING)]
             st.event('user_done', kind, n, fut.extra.get('actor'), _describe(fut.fields.get(('f', 0))) if kind == 'stream' else '')
             if kind == 'stopped':
@@ -979,6 +989,12 @@ class Sys:
             self.sync_call(st, 'context::Context::<A>::send_to_children::<M>', [VRef(ctx.root, ctx.path, True), Msg.new(tag)])
             st.event('script_result', 'send_to_children', tag)
         elif mid.startswith('ctxrestart') and ctx is not None:
+            r = self.sync_call(st, 'context::Context::<A>::restart', [VRef(ctx.root, ctx.path, False)])
+            st.event('script_result', 'ctx.restart', self.describe_result(st, r))
+        elif mid.startswith('ctxboth') and ctx is not None:
+            # stop() and then restart() from the same handler: both requests must be accepted
+            r = self.sync_call(st, 'context::Context::<A>::stop', [VRef(ctx.root, ctx.path, False)])
+            st.event('script_result', 'ctx.stop', self.describe_result(st, r))
             r = self.sync_call(st, 'context::Context::<A>::restart', [VRef(ctx.root, ctx.path, False)])
             st.event('script_result', 'ctx.restart', self.describe_result(st, r))
 
@@ -1250,6 +1266,7 @@ class Program:
             self.on_task_done(st, name, oid, res)
         else:
             b = tuple((o, self.version(st, o)) for o in sorted(st.meta.get('blocked_on', ())))
+            st.meta['yielded'] = name if st.meta.get('self_wake') else None
             if not b or st.meta.pop('self_wake', None):
                 # pending without a registered wake source: only the environment can unblock it -> keep it ready
                 self.set_task(st, name, status='ready')
@@ -1295,7 +1312,19 @@ class Program:
                 return
             op = script[pc]
             st.event('op_begin', name, pc, op[0], op[1] if len(op) > 1 else '')
-            for s2, fut in self.start_op(st, name, pc, op):
+            try:
+                started = list(self.start_op(st, name, pc, op))
+            except Unsupported as ex:
+                if type(ex).__name__ != 'MissingHandle':
+                    raise
+                # the client cannot go on (a real client would have unwrapped a None): it ends here
+                st.event('op_end', name, pc, op[0], 'skipped')
+                st.event('client_gave_up', name, pc, str(ex))
+                st.meta[('script', name)] = (script, len(script))
+                self.set_task(st, name, status='done')
+                yield st
+                return
+            for s2, fut in started:
                 if fut is None:
                     # synchronous operation finished
                     sc, p2 = s2.meta[('script', name)]
@@ -1333,6 +1362,7 @@ class Program:
                 self.set_task(l, name, status='ready')
             else:
                 b = tuple((o, self.version(l, o)) for o in sorted(l.meta.get('blocked_on', ())))
+                l.meta['yielded'] = name if l.meta.get('self_wake') else None
                 if l.meta.pop('self_wake', None):
                     b = ()
                 self.set_task(l, name, status='blocked' if b else 'ready', blocked=b)
@@ -1389,7 +1419,9 @@ class Program:
             if self.use_sleep_sets and name in asleep:
                 self.stats['sleep_pruned'] = self.stats.get('sleep_pruned', 0) + 1
                 continue
-            cost = 1 if (last is not None and last in run and name != last) else 0
+            # switching away from a task that can still run costs a preemption - unless its last poll ended in a
+            # voluntary yield (a user callback that suspended, a cooperative yield_now)
+            cost = 1 if (last is not None and last in run and name != last and st.meta.get('yielded') != last) else 0
             if K is not None and st.meta.get('preemptions', 0) + cost > K:
                 self.stats['preemption_cut'] = self.stats.get('preemption_cut', 0) + 1
                 continue
